@@ -27,11 +27,10 @@ pub async fn send_all_stub(_s: &srtla_send::net::BatchUdpSocket, _b: &[&[u8]]) -
 }
 
 pub fn cap_exceeded_abs(c: &SrtlaConnection) -> bool {
-    c.cc_target_bps != 0 && (c.cc_target_bps & 1) == 1
+    leaf_tables::cap_exceeded(c)
 }
 pub fn soft_cap_abs(c: &SrtlaConnection) -> f64 {
-    let m = c.rtt.rtt_min_ms;
-    if m >= 0.1 && m <= 1.0 { m } else { 1.0 }
+    leaf_tables::soft_cap(c)
 }
 
 fn run(mode: SchedulingMode, sym: Sym) {
@@ -149,5 +148,5 @@ fn c04_srt_packet_classic() {
 #[kani::stub(srtla_core::selection::enhanced::in_flight_cap_exceeded, cap_exceeded_abs)]
 #[kani::stub(srtla_core::selection::enhanced::cc_soft_cap_multiplier, soft_cap_abs)]
 fn c04_srt_packet_enhanced() {
-    run(SchedulingMode::Enhanced, SYM_FULL);
+    run(SchedulingMode::Enhanced, SYM_LEAF);
 }
